@@ -781,6 +781,24 @@ where
 	let context = w.get_private_context(keychain_mask, slate.id.as_bytes())?;
 	let mut excess_override = None;
 
+	// Don't do this multiple times
+	let tx = updater::retrieve_txs(
+		&mut *w,
+		None,
+		Some(slate.id),
+		None,
+		Some(&context.parent_key_id),
+		false,
+	)?;
+	for t in &tx {
+		if t.tx_type == TxLogEntryType::TxSent {
+			return Err(Error::TransactionAlreadyReceived(slate.id.to_string()));
+		}
+		if t.tx_type == TxLogEntryType::TxSentCancelled {
+			return Err(Error::TransactionWasCancelled(slate.id.to_string()));
+		}
+	}
+
 	let mut sl = slate.clone();
 
 	if sl.tx == None {
